@@ -723,11 +723,9 @@ func installSubHooks(delays bool) {
 	if delays {
 		atomic.StoreInt32(&subDelayOn, 1)
 		cache.VerifHook = subHook
-		coalesce.VerifHook = func(p string, a interface{}) {
-			if p == "next.empty" {
-				subHook(p, a)
-			}
-		}
+		// also inside Insert: a walk or a feed callback that queues a leaf without the lock it
+		// relies on loses its ordering against concurrent writers once the insert is slow
+		coalesce.VerifHook = subHook
 	}
 }
 
